@@ -20,6 +20,7 @@ import (
 	crand "crypto/rand"
 	"crypto/rsa"
 	"crypto/sha1"
+	"encoding/base64"
 	"encoding/hex"
 	"encoding/json"
 	"errors"
@@ -36,6 +37,7 @@ import (
 	"sync"
 	"sync/atomic"
 	"time"
+	"unicode/utf8"
 
 	jose "github.com/go-jose/go-jose/v4"
 
@@ -67,13 +69,17 @@ type entry struct {
 }
 
 type respSpec struct {
-	kind      string // good | empty | junkonly | 5xx | 5xxjwks | non200 | badjson | transport
+	kind      string // good | empty | junkonly | 5xx | 5xxjwks | non200 | transport | the malformed kinds
 	transport bool
 	status    int
 	badDoc    bool
+	why       string // badDoc: Coq constructor of C13_RemoteKeys.malformed (the driver's own classification)
 	entries   []entry
 	raw       string // body for badDoc
 	pad       int    // good documents: bytes of an extra member before "keys" (huge documents)
+	ctype     string // Content-Type header; "" = application/json, "-" = no header at all
+	ws        [2]string // good documents: JSON white space before / after the document (still one document)
+	readErr   int    // > 0: the body reader fails after readErr-1 bytes (BadUnreadable)
 }
 
 type tokSpec struct {
@@ -98,23 +104,32 @@ type script struct {
 	tags  []string
 }
 
-var allAlgs = []jose.SignatureAlgorithm{jose.ES256, jose.EdDSA, jose.RS256, jose.PS256}
+var allAlgs = []jose.SignatureAlgorithm{jose.ES256, jose.ES384, jose.EdDSA, jose.RS256, jose.PS256}
 
+// 20 keys: key sets of more than 8 (up to 20) distinct keys are possible; three key types,
+// two curves, two RSA algorithms
 func mkPool() []*keyEnt {
 	var pool []*keyEnt
-	for i := 0; i < 4; i++ {
+	for i := 0; i < 9; i++ {
 		k, err := ecdsa.GenerateKey(elliptic.P256(), crand.Reader)
 		must(err)
 		pool = append(pool, &keyEnt{kty: "KEc", alg: jose.ES256, priv: k, pub: &k.PublicKey})
 	}
-	for i := 0; i < 3; i++ {
+	for i := 0; i < 2; i++ {
+		k, err := ecdsa.GenerateKey(elliptic.P384(), crand.Reader)
+		must(err)
+		pool = append(pool, &keyEnt{kty: "KEc", alg: jose.ES384, priv: k, pub: &k.PublicKey})
+	}
+	for i := 0; i < 6; i++ {
 		pub, priv, err := ed25519.GenerateKey(crand.Reader)
 		must(err)
 		pool = append(pool, &keyEnt{kty: "KOkp", alg: jose.EdDSA, priv: priv, pub: pub})
 	}
-	rk, err := rsa.GenerateKey(crand.Reader, 2048)
-	must(err)
-	pool = append(pool, &keyEnt{kty: "KRsa", alg: jose.RS256, priv: rk, pub: &rk.PublicKey})
+	for _, alg := range []jose.SignatureAlgorithm{jose.RS256, jose.PS256, jose.RS256} {
+		rk, err := rsa.GenerateKey(crand.Reader, 2048)
+		must(err)
+		pool = append(pool, &keyEnt{kty: "KRsa", alg: alg, priv: rk, pub: &rk.PublicKey})
+	}
 	for i, k := range pool {
 		k.mat = i + 1
 	}
@@ -164,7 +179,39 @@ func (r *respSpec) body() []byte {
 	if r.pad > 0 {
 		pre = strings.Repeat(" ", r.pad/2) + `"issuer":"https://op.example","padding":"` + strings.Repeat("x", r.pad/2) + `",`
 	}
-	return []byte(`{` + pre + `"keys":[` + strings.Join(r.parts(), ",") + `]}`)
+	return []byte(r.ws[0] + `{` + pre + `"keys":[` + strings.Join(r.parts(), ",") + `]}` + r.ws[1])
+}
+
+// failingReader delivers the first n bytes and then fails like a connection that dies
+type failingReader struct {
+	b []byte
+	n int
+}
+
+func (f *failingReader) Read(p []byte) (int, error) {
+	if f.n <= 0 || len(f.b) == 0 {
+		return 0, io.ErrUnexpectedEOF
+	}
+	k := copy(p, f.b[:min(f.n, len(f.b))])
+	f.b, f.n = f.b[k:], f.n-k
+	return k, nil
+}
+
+func (r *respSpec) reader() io.ReadCloser {
+	if r.readErr > 0 {
+		return io.NopCloser(&failingReader{b: r.body(), n: r.readErr - 1})
+	}
+	return io.NopCloser(bytes.NewReader(r.body()))
+}
+
+func (r *respSpec) header() http.Header {
+	switch r.ctype {
+	case "":
+		return http.Header{"Content-Type": []string{"application/json"}}
+	case "-":
+		return http.Header{}
+	}
+	return http.Header{"Content-Type": []string{r.ctype}}
 }
 
 // ---------------------------------------------------------------- Coq rendering
@@ -181,7 +228,11 @@ func coqResp(r *respSpec) string {
 	if r.transport {
 		return "TransportErr"
 	}
-	body := "BadDoc"
+	why := r.why
+	if why == "" {
+		why = "BadNotJson"
+	}
+	body := "(BadDoc " + why + ")"
 	if !r.badDoc {
 		items := make([]string, len(r.entries))
 		for i, e := range r.entries {
@@ -223,8 +274,16 @@ type snap struct {
 	Req       int      `json:"req"`
 	Delivered bool     `json:"delivered"`
 	Stat      []string `json:"stat"`
-	Cache     []int    `json:"cache"`
+	Cache     []cKey   `json:"cache"`
 	Quiet     bool     `json:"quiet"` // false = no stable state within the time-out (something hangs)
+}
+
+// cKey is one entry of cachedKeys as the verif hook reads it
+type cKey struct {
+	Kid string `json:"kid"`
+	Kty string `json:"kty"`
+	Use string `json:"use"`
+	Mat int    `json:"key"`
 }
 
 func coqObserved(snaps []snap, panicked bool) string {
@@ -235,7 +294,7 @@ func coqObserved(snaps []snap, panicked bool) string {
 	for i, s := range snaps {
 		cache := make([]string, len(s.Cache))
 		for j, m := range s.Cache {
-			cache[j] = emit.Nat(m)
+			cache[j] = emit.Ctor("mkJwk", emit.Str(m.Kid), m.Kty, emit.Str(m.Use), emit.Nat(m.Mat))
 		}
 		items[i] = emit.Ctor("mkSnap", emit.Nat(s.Req), emit.Bool(s.Delivered), emit.List(s.Stat), emit.List(cache), emit.Bool(s.Quiet))
 	}
@@ -267,8 +326,8 @@ func (g *gate) RoundTrip(req *http.Request) (*http.Response, error) {
 		return &http.Response{
 			StatusCode: r.status, Status: fmt.Sprintf("%d %s", r.status, http.StatusText(r.status)),
 			Proto: "HTTP/1.1", ProtoMajor: 1, ProtoMinor: 1,
-			Header: http.Header{"Content-Type": []string{"application/json"}},
-			Body:   io.NopCloser(bytes.NewReader(r.body())), Request: req,
+			Header: r.header(),
+			Body:   r.reader(), Request: req,
 		}, nil
 	case <-req.Context().Done(): // what net/http's Transport does
 		g.mu.Lock()
@@ -413,15 +472,24 @@ func classify(payload []byte, err error, want []byte) string {
 	}
 }
 
-func (rn *runner) matOf(k jose.JSONWebKey) int {
+// keyOf describes a cached key: its kid and use as cached, its key type, and which pool key
+// it is (0 = none of them)
+func (rn *runner) keyOf(k jose.JSONWebKey) cKey {
+	c := cKey{Kid: k.KeyID, Use: k.Use, Kty: "KRsa"}
+	switch k.Key.(type) {
+	case *ecdsa.PublicKey:
+		c.Kty = "KEc"
+	case ed25519.PublicKey:
+		c.Kty = "KOkp"
+	}
 	for _, e := range rn.pool {
 		if reflect.TypeOf(e.pub) == reflect.TypeOf(k.Key) {
 			if eq, ok := e.pub.(interface{ Equal(crypto.PublicKey) bool }); ok && eq.Equal(k.Key) {
-				return e.mat
+				c.Mat = e.mat
 			}
 		}
 	}
-	return 0
+	return c
 }
 
 func (rn *runner) run(s *script) (snaps []snap, panicked bool) {
@@ -526,7 +594,7 @@ func (rn *runner) run(s *script) (snaps []snap, panicked bool) {
 			}
 		}
 		req, _ := g.state()
-		sn := snap{Req: req, Delivered: delivered, Cache: []int{}, Quiet: quiet}
+		sn := snap{Req: req, Delivered: delivered, Cache: []cKey{}, Quiet: quiet}
 		for _, c := range callers {
 			if c.done.Load() {
 				sn.Stat = append(sn.Stat, c.status)
@@ -536,7 +604,7 @@ func (rn *runner) run(s *script) (snaps []snap, panicked bool) {
 		}
 		_, cached, _ := rp.VerifC13Inspect(ks)
 		for _, k := range cached {
-			sn.Cache = append(sn.Cache, rn.matOf(k))
+			sn.Cache = append(sn.Cache, rn.keyOf(k))
 		}
 		snaps = append(snaps, sn)
 	}
@@ -550,14 +618,121 @@ type gen struct {
 	pool   []*keyEnt
 	nkid   int
 	ntok   int
-	nfail  int
-	nkinds map[string]bool
+	cat    int             // cursor into the malformed catalogue: the sweeps walk through all of it
+	usedKw map[string]bool // keyword-like kids used in the current script (kids are never reused)
+	toks   []*tokSpec      // tokens of the current script (some are presented again)
+	alt    map[int]int     // per directed shape: how often it was built (two-sided shapes alternate their sides)
 }
 
-func (g *gen) freshKid() string { g.nkid++; return fmt.Sprintf("k%d", g.nkid) }
+// side alternates true / false per shape, so that a quick run has both sides of every two-sided shape
+func (g *gen) side(which int) bool {
+	if g.alt == nil {
+		g.alt = map[int]int{}
+	}
+	g.alt[which]++
+	return g.alt[which]%2 == 1
+}
+
+// fresh kids carry even numbers only: flipping the last bit of one never gives another one
+func (g *gen) freshKid() string { g.nkid += 2; return fmt.Sprintf("k%d", g.nkid) }
+
+var keywordKids = []string{"null", "NULL", "nil", "undefined", "true", "false", "0", "[]", "{}", "None", "NaN", "-1", "kid", "keys"}
+
+// oddKid: a kid that is a keyword-like literal (at most once per script), or has upper case,
+// slashes, percent escapes, white space inside, or non-ASCII letters; longKid: 1-4 KiB
+func (g *gen) oddKid() string {
+	if g.r.Chance(1, 2) {
+		for tries := 0; tries < 6; tries++ {
+			if kw := drv.Pick(g.r, keywordKids); !g.usedKw[kw] {
+				if g.usedKw == nil {
+					g.usedKw = map[string]bool{}
+				}
+				g.usedKw[kw] = true
+				return kw
+			}
+		}
+	}
+	g.nkid += 2
+	return fmt.Sprintf(drv.Pick(g.r, []string{"Key-%d/Sig", "K%d", "kid %d", "k%d%%2Fs", "urn:kid:%d#s", "sch\u00fcssel-%d", "K\u212a%d", "\u017fig-%d", "k%d+a"}), g.nkid)
+}
+
+func (g *gen) longKid() string {
+	g.nkid += 2
+	n := drv.Pick(g.r, []int{1020, 1024, 1030, 2050, 4090, 4100})
+	return fmt.Sprintf("k%d-", g.nkid) + strings.Repeat("abcdefghijklmnopqrstuvwxyz012345", n/32+1)[:n]
+}
+
+// nearKid: a kid that differs from kid only by what a 'normalising' comparison would ignore
+// (letter case, Unicode case folding of K and s, surrounding white space - also percent-encoded
+// or '+', a trailing slash, a NUL), or is a proper prefix / extension of it, or differs in the
+// last byte only
+func (g *gen) nearKid(kid string) string {
+	if kid == "" {
+		return "x"
+	}
+	flip := func(c byte) byte {
+		switch {
+		case c >= 'a' && c <= 'z':
+			return c - 32
+		case c >= 'A' && c <= 'Z':
+			return c + 32
+		}
+		return c
+	}
+	for tries := 0; tries < 30; tries++ {
+		v := kid
+		switch g.r.IntN(13) {
+		case 0:
+			v = strings.ToUpper(kid)
+		case 1:
+			v = strings.ToLower(kid)
+		case 2:
+			b := []byte(kid)
+			i := g.r.IntN(len(b))
+			b[i] = flip(b[i])
+			v = string(b)
+		case 3:
+			v = kid + drv.Pick(g.r, []string{" ", "\t", "\n", "\r", "\r\n", "  "})
+		case 4:
+			v = drv.Pick(g.r, []string{" ", "\t", "\n"}) + kid
+		case 5:
+			v = kid + "/"
+		case 6:
+			v = kid + drv.Pick(g.r, []string{"%20", "+", "%0A", "%00", "\x00", "%2F"})
+		case 7:
+			for _, p := range [][2]string{{"k", "\u212a"}, {"K", "\u212a"}, {"s", "\u017f"}, {"S", "\u017f"}, {"\u212a", "k"}, {"\u017f", "s"}} {
+				if strings.Contains(kid, p[0]) {
+					v = strings.Replace(kid, p[0], p[1], 1)
+					break
+				}
+			}
+		case 8:
+			v = kid[:len(kid)-1]
+		case 9:
+			v = kid + drv.Pick(g.r, []string{"x", "0", kid})
+		case 10:
+			b := []byte(kid)
+			b[len(b)-1] ^= 1
+			v = string(b)
+		case 11:
+			v = " " + kid + " "
+		default:
+			v = strings.TrimRight(kid, "/ ")
+		}
+		if v != kid && v != "" && utf8.ValidString(v) {
+			return v
+		}
+	}
+	return kid + "~"
+}
 
 func (g *gen) newJwk() *jwkSpec {
 	j := &jwkSpec{kid: g.freshKid(), use: "sig", key: drv.Pick(g.r, g.pool)}
+	if g.r.Chance(1, 12) {
+		j.kid = g.oddKid()
+	} else if g.r.Chance(1, 80) {
+		j.kid = g.longKid()
+	}
 	switch x := g.r.IntN(20); {
 	case x < 3:
 		j.use = ""
@@ -603,7 +778,9 @@ func (g *gen) twins(set []*jwkSpec) []*jwkSpec {
 	i := g.r.IntN(len(set))
 	j := set[i]
 	tw := &jwkSpec{kid: j.kid, use: j.use}
-	switch g.r.IntN(6) {
+	switch g.r.IntN(8) {
+	case 6, 7: // another key of the same type under a kid that differs by case / white space / a slash only
+		tw.key, tw.kid = g.someOther(j.key, true), g.nearKid(j.kid)
 	case 0, 1:
 		tw.key = g.otherKey(j.key, false)
 	case 2:
@@ -631,7 +808,11 @@ func (g *gen) twins(set []*jwkSpec) []*jwkSpec {
 func (g *gen) timeline(n int) [][]*jwkSpec {
 	var tl [][]*jwkSpec
 	cur := []*jwkSpec{}
-	for k := 1 + g.r.IntN(3); k > 0; k-- {
+	k0 := 1 + g.r.IntN(3)
+	if g.r.Chance(1, 10) { // a large key set
+		k0 = 9 + g.r.IntN(6)
+	}
+	for k := k0; k > 0; k-- {
 		cur = append(cur, g.newJwk())
 	}
 	if g.r.Chance(1, 12) && len(cur) >= 2 { // duplicate kid
@@ -676,8 +857,11 @@ func (g *gen) randToken(tl [][]*jwkSpec, idx int) *tokSpec {
 	case x < 72 && idx > 0: // possibly retired key
 		j := pickFrom(g.r.IntN(idx))
 		return g.token("older", j.kid, j.key)
-	case x < 80:
+	case x < 76:
 		return g.token("unknownkid", fmt.Sprintf("nope%d", g.r.IntN(3)), drv.Pick(g.r, g.pool))
+	case x < 80: // a kid that is nearly a published one, signed by that key
+		j := pickFrom(idx)
+		return g.token("nearkid", g.nearKid(j.kid), j.key)
 	case x < 88:
 		j := pickFrom(idx)
 		return g.token("kidless", "", j.key)
@@ -702,41 +886,83 @@ var junkEntries = []string{
 	`5`, `"str"`, `{}`, `null`, `{"kty":"RSA","n":"!!","e":"AQAB"}`,
 }
 
-// malformed builds a 200 body that is NOT one well-formed JSON object with a "keys" array,
-// out of a perfectly good document for the current key set (so it contains every key a
-// waiting token needs): the catalogue of "malformed JWKS download".
-func (g *gen) malformed(set []*jwkSpec, kind int) *respSpec {
-	good := g.goodResp(set)
+var ctypes = []string{"", "application/jwk-set+json", "application/json; charset=utf-8", "text/plain", "text/html; charset=utf-8",
+	"-", "application/octet-stream", "application/jose", "text/json", "APPLICATION/JSON"}
+
+const htmlPage = "<html><body>503 maintenance</body></html>"
+
+// plainGood: the current key set as a plain good document
+func plainGood(set []*jwkSpec) *respSpec {
+	r := &respSpec{kind: "good", status: 200}
+	for _, j := range set {
+		r.entries = append(r.entries, entry{jwk: j})
+	}
+	return r
+}
+
+// catalogue: every way (we know) in which a 200 body is NOT one well-formed JSON object with a
+// "keys" array - the "malformed JWKS download" of the property text. All are built out of a
+// perfectly good document for the current key set (so they contain every key a waiting token
+// needs) and each carries the driver's own classification (C13_RemoteKeys.malformed).
+// Deliberately absent: member names that differ from "keys" by letter case only and duplicate
+// "keys" members (encoding/json's documented matching; see notes/C13.md).
+func (g *gen) catalogue(set []*jwkSpec) []*respSpec {
+	good := plainGood(set)
 	doc := string(good.body())
 	parts := good.parts()
 	first := `{"kty":"EC"}`
 	if len(parts) > 0 {
 		first = parts[0]
 	}
-	r := &respSpec{status: 200, badDoc: true}
-	if kind < 0 {
-		kind = g.r.IntN(6)
+	keys := strings.Join(parts, ",")
+	var out []*respSpec
+	add := func(kind, why string, raws ...string) {
+		for _, raw := range raws {
+			out = append(out, &respSpec{kind: kind, status: 200, badDoc: true, why: why, raw: raw})
+		}
 	}
-	switch kind % 6 {
-	case 0: // a complete document followed by more bytes
-		r.kind = "trailing"
-		r.raw = doc + drv.Pick(g.r, []string{"<html><body>503 maintenance</body></html>", doc, "]}", "\n{}", " x", ",", "}", "\x00", "\n\n//ok"})
-	case 1: // cut anywhere
-		r.kind = "truncated"
-		r.raw = doc[:1+g.r.IntN(len(doc)-1)]
-	case 2: // wrong top-level type
-		r.kind = "toplevel"
-		r.raw = drv.Pick(g.r, []string{"[" + strings.Join(parts, ",") + "]", "[]", `"` + "keys" + `"`, "5", "true"})
-	case 3: // keys is not an array
-		r.kind = "keysnotarray"
-		r.raw = drv.Pick(g.r, []string{`{"keys":` + first + `}`, `{"keys":"k1"}`, `{"keys":5}`, `{"keys":{}}`, `{"keys":true}`})
-	case 4: // valid JSON object, not a JWKS
-		r.kind = "notjwks"
-		r.raw = drv.Pick(g.r, []string{`{}`, `{"error":"server_error"}`, `{"keys":null}`, first, `{"jwks":[` + strings.Join(parts, ",") + `]}`, `{"message":"maintenance","status":200}`})
-	default:
-		r.kind = "notjson"
-		r.raw = drv.Pick(g.r, []string{``, `not json`, `<html><body>login</body></html>`, `{keys:[]}`, `{'keys':[]}`})
+	add("emptybody", "BadEmpty", "")
+	add("blank", "BadBlank", " ", "\n", "\r\n", "\t", " \n\t \r\n ", strings.Repeat(" ", 5000), strings.Repeat("\n", 1025))
+	add("null", "BadNull", "null", " null ", "null\n", "\r\n\tnull")
+	add("scalar", "BadScalar", `"keys"`, `""`, "5", "0", "true", "false", "-1.5e3")
+	add("toplevel", "BadArray", "["+keys+"]", "[]", "[[]]", "[{}]", "[null]", "["+doc+"]")
+	add("notjwks", "BadNoKeys", `{}`, ` {} `, "{\n}", `{"error":"server_error"}`, first, `{"jwks":[`+keys+`]}`,
+		`{"message":"maintenance","status":200}`, `{"data":`+doc+`}`, `{"key":[`+keys+`]}`, `{"keys ":[`+keys+`]}`,
+		`{"":[`+keys+`]}`, `{"keyset":[`+keys+`],"kid":"keys"}`)
+	add("keysnull", "BadKeysNull", `{"keys":null}`, `{"keys": null }`, `{"issuer":"https://op.example","keys":null}`)
+	add("keysnotarray", "BadKeysNotArray", `{"keys":`+first+`}`, `{"keys":"k1"}`, `{"keys":5}`, `{"keys":0}`, `{"keys":{}}`,
+		`{"keys":true}`, `{"keys":false}`, `{"keys":""}`, `{"keys":"[]"}`, `{"keys":{"0":`+first+`}}`)
+	add("truncated", "BadTruncated", doc[:len(doc)-1], doc[:len(doc)-2], doc[:1], `{"keys":[`, `{"keys":`, `{"keys"`,
+		doc[:1+g.r.IntN(len(doc)-1)], doc[:len(doc)/2])
+	add("trailing", "BadTrailing", doc+htmlPage, doc+doc, doc+"]}", doc+"\n{}", doc+" x", doc+",", doc+"}", doc+"\x00",
+		doc+"\n\n//ok", doc+"null", doc+"[]", doc+"\n"+doc)
+	add("notjson", "BadNotJson", `not json`, htmlPage, `{keys:[]}`, `{'keys':[]}`, "\xef\xbb\xbf"+doc,
+		base64.StdEncoding.EncodeToString([]byte(doc)), "\v", "\f", "\u00a0", "\u2028", `NULL`, `Null`, `nil`, `undefined`, `None`,
+		`{"keys":[`+keys+`,]}`, `{"keys":[`+keys+`],}`, "//jwks\n"+doc, "\x00", "\x00"+doc)
+	for _, n := range []int{1, len(doc)/2 + 1, len(doc), len(doc) + 1} { // the body cannot be read to its end (the last one: every byte arrives, then the connection fails instead of ending)
+		out = append(out, &respSpec{kind: "unreadable", status: 200, badDoc: true, why: "BadUnreadable", raw: doc, readErr: n})
 	}
+	return out
+}
+
+// malformed: a random entry of the catalogue; nextMalformed: the next one (the sweeps and
+// failure_keeps_cache walk through the whole catalogue), with the Content-Type varied as well
+func (g *gen) malformed(set []*jwkSpec) *respSpec {
+	r := drv.Pick(g.r, g.catalogue(set))
+	if g.r.Chance(1, 3) {
+		r.ctype = drv.Pick(g.r, ctypes)
+	}
+	return r
+}
+
+func (g *gen) nextMalformed(set []*jwkSpec) *respSpec {
+	cat := g.catalogue(set)
+	r := cat[g.cat%len(cat)]
+	r.ctype = ctypes[(g.cat/len(cat)+g.cat)%len(ctypes)]
+	if r.raw == htmlPage {
+		r.ctype = "text/html; charset=utf-8"
+	}
+	g.cat++
 	return r
 }
 
@@ -744,6 +970,9 @@ func (g *gen) goodResp(set []*jwkSpec) *respSpec {
 	r := &respSpec{kind: "good", status: 200}
 	if g.r.Chance(1, 25) { // a huge but well-formed document is still a good download
 		r.kind, r.pad = "goodhuge", 100000+g.r.IntN(200000)
+		if g.r.Chance(1, 4) { // just above 64 KiB, 1 MiB, 2 MiB
+			r.pad = drv.Pick(g.r, []int{66000, 1<<20 + 4096, 2<<20 + 100})
+		}
 		for k := 40 + g.r.IntN(40); k > 0; k-- {
 			r.entries = append(r.entries, entry{junk: drv.Pick(g.r, junkEntries)})
 		}
@@ -754,21 +983,40 @@ func (g *gen) goodResp(set []*jwkSpec) *respSpec {
 		}
 		r.entries = append(r.entries, entry{jwk: j})
 	}
+	if g.r.Chance(1, 5) { // the media type is not what makes a key set document (the code never looks at it)
+		r.ctype = drv.Pick(g.r, ctypes)
+	}
+	if g.r.Chance(1, 6) { // white space around the document: still exactly one document
+		r.ws = [2]string{drv.Pick(g.r, []string{"", " ", "\n", "\r\n\t"}), drv.Pick(g.r, []string{"\n", " ", "\r\n", "\n\n\t "})}
+	}
 	return r
 }
 
+var badStatuses = []int{500, 502, 503, 504, 404, 204, 201, 202, 203, 206, 299, 304, 400, 401, 403, 410, 429}
+
 func (g *gen) failResp(set []*jwkSpec) *respSpec {
-	switch g.r.IntN(8) {
+	switch g.r.IntN(10) {
 	case 0:
 		return &respSpec{kind: "transport", transport: true}
 	case 1:
-		return &respSpec{kind: "5xx", status: drv.Pick(g.r, []int{500, 502, 503}), badDoc: true, raw: `{"error":"server_error"}`}
+		return &respSpec{kind: "5xx", status: drv.Pick(g.r, []int{500, 502, 503, 504}), badDoc: true, why: "BadNoKeys", raw: `{"error":"server_error"}`}
 	case 2: // an error status carrying a perfectly good key set: must not be used
 		r := g.goodResp(set)
-		r.kind, r.status = "5xxjwks", drv.Pick(g.r, []int{500, 503, 404, 204, 201})
+		r.kind, r.status = "5xxjwks", drv.Pick(g.r, badStatuses)
 		return r
-	case 3, 4, 7:
-		return g.malformed(set, -1)
+	case 8: // an error status with no, blank or an HTML body
+		r := &respSpec{kind: "non200", status: drv.Pick(g.r, badStatuses), badDoc: true}
+		switch g.r.IntN(3) {
+		case 0:
+			r.why, r.raw = "BadEmpty", ""
+		case 1:
+			r.why, r.raw = "BadBlank", "\n"
+		default:
+			r.why, r.raw, r.ctype = "BadNotJson", htmlPage, "text/html"
+		}
+		return r
+	case 3, 4, 7, 9:
+		return g.malformed(set)
 	case 5: // well-formed document without usable keys: a VALID empty key set
 		r := &respSpec{kind: "junkonly", status: 200}
 		for k := 1 + g.r.IntN(2); k > 0; k-- {
@@ -777,6 +1025,20 @@ func (g *gen) failResp(set []*jwkSpec) *respSpec {
 		return r
 	default:
 		return &respSpec{kind: "empty", status: 200}
+	}
+}
+
+// down: the endpoint is down (what an outage looks like: 5xx, transport errors, error pages)
+func (g *gen) down() *respSpec {
+	switch g.r.IntN(4) {
+	case 0:
+		return &respSpec{kind: "transport", transport: true}
+	case 1:
+		return &respSpec{kind: "non200", status: drv.Pick(g.r, []int{502, 503, 504}), badDoc: true, why: "BadNotJson", raw: htmlPage, ctype: "text/html"}
+	case 2:
+		return &respSpec{kind: "non200", status: 503, badDoc: true, why: "BadEmpty", raw: ""}
+	default:
+		return &respSpec{kind: "5xx", status: drv.Pick(g.r, []int{500, 502, 503}), badDoc: true, why: "BadNoKeys", raw: `{"error":"server_error"}`}
 	}
 }
 
@@ -789,6 +1051,7 @@ func (g *gen) dieOp() string {
 }
 
 func (g *gen) randomScript() *script {
+	g.usedKw, g.toks = nil, nil
 	s := &script{skip: g.r.Chance(1, 5)}
 	target := 2 + g.r.IntN(5)
 	tl := g.timeline(1 + g.r.IntN(3))
@@ -801,7 +1064,13 @@ func (g *gen) randomScript() *script {
 			s.steps = append(s.steps, step{op: "rotate", set: tl[idx]})
 		}
 		for k := 1 + g.r.IntN(3); k > 0 && arrived < target; k-- {
-			s.steps = append(s.steps, step{op: "arrive", tok: g.randToken(tl, idx)})
+			tok := g.randToken(tl, idx)
+			if len(g.toks) > 0 && g.r.Chance(1, 10) { // the very same token presented again (possibly after a rotation)
+				tok = drv.Pick(g.r, g.toks)
+				s.tags = append(s.tags, "replay=1")
+			}
+			g.toks = append(g.toks, tok)
+			s.steps = append(s.steps, step{op: "arrive", tok: tok})
 			arrived++
 			if g.r.Chance(1, 5) {
 				s.steps = append(s.steps, step{op: g.dieOp(), tid: g.r.IntN(target)})
@@ -827,17 +1096,21 @@ func (g *gen) randomScript() *script {
 	return s
 }
 
-// nextFailure walks through the catalogue: the six malformed kinds in turn, then a random failure
+// nextFailure: mostly the next entry of the malformed catalogue, sometimes another failure
 func (g *gen) nextFailure(set []*jwkSpec) *respSpec {
-	g.nfail++
-	if g.nfail%7 == 0 {
-		return g.failResp(set)
+	if g.r.Chance(1, 7) {
+		for {
+			if r := g.failResp(set); r.kind != "junkonly" && r.kind != "empty" {
+				return r
+			}
+		}
 	}
-	return g.malformed(set, g.nfail%7-1)
+	return g.nextMalformed(set)
 }
 
 // directed shapes, each with a little random variation
 func (g *gen) directed(which int) *script {
+	g.usedKw, g.toks = nil, nil
 	tl := g.timeline(2)
 	for _, set := range tl { // make them plain: usable keys with kids
 		for _, j := range set {
@@ -848,11 +1121,45 @@ func (g *gen) directed(which int) *script {
 		}
 	}
 	valid := func(i int) *tokSpec { j := drv.Pick(g.r, tl[i]); return g.token("valid", j.kid, j.key) }
-	s := &script{}
+	s := &script{skip: g.r.Chance(1, 4)}
 	add := func(st ...step) { s.steps = append(s.steps, st...) }
 	rot := func(i int) step { return step{op: "rotate", set: tl[i]} }
 	if which < 9 {
 		add(rot(0))
+	}
+	arrive := func(t *tokSpec) step { return step{op: "arrive", tok: t} }
+	release := func(r *respSpec) step { return step{op: "release", resp: r} }
+	// distinct pool keys, optionally all of one key type
+	distinct := func(n int, kty string) []*keyEnt {
+		var c []*keyEnt
+		for _, i := range g.r.Perm(len(g.pool)) {
+			if kty == "" || g.pool[i].kty == kty {
+				c = append(c, g.pool[i])
+			}
+		}
+		if n > len(c) {
+			n = len(c)
+		}
+		return c[:n]
+	}
+	outsider := func(set []*jwkSpec, like *keyEnt) *keyEnt { // a key no entry of set uses, of like's type when there is one
+		in := map[*keyEnt]bool{}
+		for _, j := range set {
+			in[j.key] = true
+		}
+		var same, any []*keyEnt
+		for _, e := range g.pool {
+			if !in[e] {
+				any = append(any, e)
+				if e.kty == like.kty {
+					same = append(same, e)
+				}
+			}
+		}
+		if len(same) > 0 {
+			return drv.Pick(g.r, same)
+		}
+		return drv.Pick(g.r, any)
 	}
 	switch which {
 	case 0: // F13: the first caller (owner of the download) is cancelled while others wait
@@ -870,6 +1177,165 @@ func (g *gen) directed(which int) *script {
 		s.tags = []string{"shape=joiner_cancel"}
 		add(step{op: "arrive", tok: valid(0)}, step{op: "arrive", tok: valid(0)}, step{op: "arrive", tok: valid(0)},
 			step{op: "cancel", tid: 1 + g.r.IntN(2)}, step{op: "release", resp: g.goodResp(tl[0])})
+	case 12: // outage: warm cache, then refreshes answered by one malformed document after the other and
+		// finally by an endpoint that is down - after each, a token of a key that was cached before
+		// and is still published must verify from the cache, without a download
+		s.tags = []string{"shape=outage_sweep", "rotate=1"}
+		var set0 []*jwkSpec
+		for _, k := range distinct(2+g.r.IntN(3), "") {
+			set0 = append(set0, &jwkSpec{kid: g.freshKid(), use: drv.Pick(g.r, []string{"sig", "sig", ""}), key: k})
+		}
+		nk := outsider(set0, set0[0].key)
+		jn := &jwkSpec{kid: g.freshKid(), use: "sig", key: nk}
+		pub := append(append([]*jwkSpec{}, set0...), jn) // the old keys are still published, one was rotated in
+		if g.r.Bool() {
+			pub = append([]*jwkSpec{jn}, set0...)
+		}
+		cachedTok := func() *tokSpec { j := drv.Pick(g.r, set0); return g.token("valid", j.kid, j.key) }
+		trigger := func() *tokSpec { // a token the cache cannot answer
+			switch g.r.IntN(4) {
+			case 0:
+				return g.token("unknownkid", fmt.Sprintf("nope%d", g.r.IntN(3)), drv.Pick(g.r, g.pool))
+			case 1:
+				return g.token("kidless", "", nk)
+			case 2:
+				j := drv.Pick(g.r, set0)
+				return g.token("nearkid", g.nearKid(j.kid), j.key)
+			default:
+				return g.token("valid", jn.kid, nk)
+			}
+		}
+		first := cachedTok()
+		add(step{op: "rotate", set: set0}, arrive(first), release(g.goodResp(set0)), step{op: "rotate", set: pub})
+		for k := 5; k > 0; k-- {
+			add(arrive(trigger()))
+			if g.r.Chance(1, 4) {
+				add(arrive(trigger()))
+			}
+			add(release(g.nextMalformed(pub)), arrive(cachedTok()))
+			if g.r.Chance(1, 4) {
+				add(arrive(first)) // the very token that filled the cache
+			}
+		}
+		add(arrive(trigger()), release(g.down()), arrive(cachedTok()))
+		if g.r.Bool() {
+			add(arrive(trigger()), release(g.down()), arrive(cachedTok()))
+		}
+		add(arrive(g.token("valid", jn.kid, nk)), release(g.goodResp(pub)), arrive(cachedTok()), arrive(g.token("valid", jn.kid, nk)))
+	case 13: // a key set of 9-20 keys: tokens of the last, the 9th and the first key, kid-less keys of
+		// several types side by side, a kid shared by two key types, junk in between; then a
+		// rotation that retires the 9th key
+		s.tags = []string{"shape=large_set", "rotate=1"}
+		ks := distinct(9+g.r.IntN(12), "")
+		var set []*jwkSpec
+		for _, k := range ks {
+			set = append(set, &jwkSpec{kid: g.freshKid(), use: "sig", key: k})
+		}
+		n := len(set)
+		// kid-less keys: one per key type among the entries 1..n-2 (so first, 9th and last keep their kid)
+		seenTy := map[string]bool{}
+		var kidless []*jwkSpec
+		for _, i := range g.r.Perm(n) {
+			if i == 0 || i == 8 || i == n-1 || seenTy[set[i].key.kty] || !g.r.Chance(2, 3) {
+				continue
+			}
+			seenTy[set[i].key.kty] = true
+			set[i].kid = ""
+			kidless = append(kidless, set[i])
+		}
+		if g.r.Bool() { // one kid on keys of two types
+			for _, i := range g.r.Perm(n) {
+				if i != 0 && i != 8 && i != n-1 && set[i].kid != "" && set[i].key.kty != set[n-1].key.kty {
+					set[i].kid = set[n-1].kid
+					break
+				}
+			}
+		}
+		if g.r.Chance(1, 3) {
+			set[1+g.r.IntN(7)].use = "enc"
+		}
+		last, ninth, firstK := set[n-1], set[8], set[0]
+		tk := func(j *jwkSpec) *tokSpec { return g.token("valid", j.kid, j.key) }
+		add(step{op: "rotate", set: set}, arrive(tk(last)), arrive(tk(ninth)), release(g.goodResp(set)),
+			arrive(tk(firstK)), arrive(tk(ninth)), arrive(tk(last)))
+		for _, j := range kidless { // against a kid-less key: a kid-less token and a token with a kid nobody publishes
+			add(arrive(g.token("kidless", "", j.key)))
+			if g.r.Bool() {
+				add(arrive(g.token("kid_vs_kidless_key", "nope7", j.key)))
+			}
+		}
+		add(arrive(g.token("unknownkid", "nope8", ninth.key)), release(g.goodResp(set)))
+		var set2 []*jwkSpec
+		for i, j := range set {
+			if i != 8 {
+				set2 = append(set2, j)
+			}
+		}
+		g.r.Shuffle(len(set2), func(a, b int) { set2[a], set2[b] = set2[b], set2[a] })
+		add(step{op: "rotate", set: set2}, arrive(g.token("unknownkid", "nope9", last.key)), release(g.goodResp(set2)),
+			arrive(tk(ninth)), arrive(tk(last)), release(g.goodResp(set2)), arrive(tk(firstK)))
+	case 14: // kids are compared byte for byte: near misses (case, white space, slash, prefix, last byte),
+		// keyword-like and very long kids, on the reject side (only one spelling is published) and
+		// on the accept side (both spellings are published, on different keys)
+		s.tags = []string{"shape=near_kid"}
+		ab := distinct(2, drv.Pick(g.r, []string{"KEc", "KEc", "KOkp", "KRsa"}))
+		a, b := ab[0], ab[1]
+		var kid string
+		g.side(140)
+		switch g.alt[140] % 3 { // a quick run has all three
+		case 1:
+			kid = g.longKid()
+		case 2:
+			kid = g.oddKid()
+		default:
+			kid = g.freshKid()
+		}
+		near := g.nearKid(kid)
+		if len(kid) > 1000 { // differs only beyond the first KiB (4 KiB)
+			near = kid[:len(kid)-1] + "#"
+		}
+		ja := &jwkSpec{kid: kid, use: "sig", key: a}
+		if g.side(14) { // reject side
+			s.tags = append(s.tags, "near=unpublished")
+			set := []*jwkSpec{ja}
+			if g.r.Bool() {
+				set = append(set, &jwkSpec{kid: g.freshKid(), use: "sig", key: b})
+			}
+			add(step{op: "rotate", set: set}, arrive(g.token("valid", kid, a)), release(g.goodResp(set)),
+				arrive(g.token("nearkid", near, a)), release(g.goodResp(set)),
+				arrive(g.token("valid", kid, a)), arrive(g.token("nearkid", near, a)), arrive(g.token("nearkid", g.nearKid(kid), a)),
+				release(g.goodResp(set)))
+		} else { // accept side
+			s.tags = append(s.tags, "near=published")
+			jb := &jwkSpec{kid: near, use: "sig", key: b}
+			set := []*jwkSpec{ja, jb}
+			if g.r.Bool() {
+				set = []*jwkSpec{jb, ja}
+			}
+			add(step{op: "rotate", set: set}, arrive(g.token("valid", near, b)), arrive(g.token("valid", kid, a)), release(g.goodResp(set)),
+				arrive(g.token("valid", kid, a)), arrive(g.token("valid", near, b)), arrive(g.token("wrongkey", near, a)),
+				arrive(g.token("wrongkey", kid, b)))
+		}
+	case 15: // nothing remembered about a token or a kid outlives the key set it was checked against: the same
+		// token again and again, a forged token under the same kid in between, then the key is retired
+		s.tags = []string{"shape=replay_retired", "rotate=1"}
+		ks := distinct(4, drv.Pick(g.r, []string{"KEc", "KEc", "KOkp"}))
+		ja, jb := &jwkSpec{kid: g.freshKid(), use: "sig", key: ks[0]}, &jwkSpec{kid: g.freshKid(), use: "sig", key: ks[1]}
+		jd := &jwkSpec{kid: g.freshKid(), use: "sig", key: ks[3]}
+		if g.r.Chance(1, 3) {
+			ja.kid = g.oddKid()
+		}
+		s0, s1 := []*jwkSpec{ja, jb}, []*jwkSpec{jb, jd}
+		if g.r.Bool() {
+			s0 = []*jwkSpec{jb, ja}
+		}
+		x := g.token("valid", ja.kid, ja.key)
+		forged := g.token("wrongkey", ja.kid, ks[2])
+		yb := g.token("valid", jb.kid, jb.key)
+		add(step{op: "rotate", set: s0}, arrive(x), release(g.goodResp(s0)), arrive(forged), arrive(x), arrive(yb), arrive(forged),
+			step{op: "rotate", set: s1}, arrive(g.token("valid", jd.kid, jd.key)), release(g.goodResp(s1)),
+			arrive(x), release(g.goodResp(s1)), arrive(forged), arrive(x), release(g.goodResp(s1)), arrive(yb),
+			arrive(g.token("older", ja.kid, ja.key)), release(g.down()), arrive(yb))
 	case 9: // one kid, several keys: key types side by side under the same kid, kid-less neighbours
 		s.tags = []string{"shape=shared_kid"}
 		a := drv.Pick(g.r, g.pool)
@@ -902,7 +1368,7 @@ func (g *gen) directed(which int) *script {
 		b := g.otherKey(a, true)
 		var ja, jb *jwkSpec
 		var ta, tb func() *tokSpec
-		if g.r.Bool() { // keys without kid, tokens with kid
+		if g.side(10) { // keys without kid, tokens with kid
 			kid := g.freshKid()
 			ja, jb = &jwkSpec{use: "sig", key: a}, &jwkSpec{use: "sig", key: b}
 			ta = func() *tokSpec { return g.token("kid_vs_kidless_key", kid, a) }
@@ -1026,7 +1492,15 @@ func (s *script) finishTags() {
 			}
 		case "rotate":
 			seen := map[string]bool{}
+			if len(st.set) > 8 {
+				add("keys=more_than_8")
+			}
 			for _, j := range st.set {
+				if len(j.kid) > 1000 {
+					add("kid=long")
+				} else if j.kid != "" && !(j.kid[0] == 'k' && strings.Trim(j.kid[1:], "0123456789") == "") {
+					add("kid=odd")
+				}
 				if j.kid == "" {
 					add("pub=kidless_key")
 				} else if seen[j.kid] {
@@ -1043,9 +1517,16 @@ func (s *script) finishTags() {
 		default:
 			nRel++
 			add("resp=" + st.resp.kind)
+			if st.resp.ctype != "" {
+				add("ctype=not_application_json")
+			}
 		}
 	}
-	add(fmt.Sprintf("callers=%d", nArr))
+	if nArr >= 7 {
+		add("callers=7_or_more")
+	} else {
+		add(fmt.Sprintf("callers=%d", nArr))
+	}
 	if nCan > 2 {
 		nCan = 2
 	}
@@ -1246,7 +1727,7 @@ func main() {
 	cfg := drv.Parse()
 	r := drv.NewRand(cfg.Seed)
 	w := emit.NewWriter(cfg.Out, "C13_spec", 0, cfg.Only)
-	n := cfg.Count(160, 3000)
+	n := cfg.Count(208, 3000)
 	pool := mkPool()
 	g := &gen{r: r, pool: pool}
 	maxWait := 150 * time.Millisecond
@@ -1256,7 +1737,9 @@ func main() {
 	for i := 0; i < n; i++ {
 		var s *script
 		if i%4 == 0 {
-			s = g.directed((i / 4) % 12)
+			s = g.directed((i / 4) % 16)
+		} else if i%8 == 2 { // the sweeps are what walks through the malformed catalogue: 1 script in 8
+			s = g.directed(12)
 		} else {
 			s = g.randomScript()
 		}
@@ -1357,8 +1840,9 @@ func main() {
 	must(w.Close(emit.Meta{
 		Property: "C13", Tier: cfg.Tier, Seed: cfg.Seed,
 		Rule: "each case = one macro-schedule (arrive/cancel/expire/release + rotate = ground truth of what the endpoint publishes; expire = a real context.WithDeadline passing) of 2-6 concurrent VerifySignature calls on a fresh rp.NewRemoteKeySet " +
-			"behind a gated RoundTripper; 1 in 4 directed shapes (owner cancel, pre-cancelled owner, joiner cancel, owner deadline expires, joiner deadline expires, rotation, failure keeps cache, unknown kid, fail-recover-rotate, one kid shared by keys of several types, keys without kid x tokens with kid and vice versa across a rotation, repeated kid-less tokens on a key set of mixed key types), " +
-			"the rest random phases over a timeline of rotating key sets (1 in 3 with a same-kid / kid-less neighbour of another or the same key type, before or after) with valid/future/older/unknown-kid/kid-less/wrong-key tokens and good/huge/5xx/non-200-with-JWKS/malformed (trailing bytes, truncated, wrong top-level type, keys not an array, not a JWKS, not JSON)/junk-only/empty/transport-error answers. " +
+			"behind a gated RoundTripper; 1 in 4 directed shapes (owner cancel, pre-cancelled owner, joiner cancel, owner deadline expires, joiner deadline expires, rotation, failure keeps cache, unknown kid, fail-recover-rotate, one kid shared by keys of several types, keys without kid x tokens with kid and vice versa across a rotation, repeated kid-less tokens on a key set of mixed key types, outage sweep, key set of 9-20 keys, near-miss / keyword / 1-4 KiB kids on the accept and the reject side, the same token replayed around a forged one and after its key was retired; SkipRemoteCheck 1 in 4), " +
+			"1 in 8 an outage sweep (warm cache; five refreshes answered by the next five entries of the malformed-200 catalogue - empty, blank, null, scalars, arrays, no / null / non-array keys member, truncated, trailing bytes, not JSON, unreadable body; Content-Type varied - each followed by a token of a cached and still published key, then the endpoint down, then recovery), " +
+			"the rest random phases over a timeline of rotating key sets (1 in 3 with a same-kid / kid-less neighbour of another or the same key type, before or after) (1 in 10 of 9-14 keys; keyword-like and odd kids) with valid/future/older/unknown-kid/near-miss-kid/kid-less/wrong-key/replayed tokens and good (any Content-Type, white space around the document)/huge (up to 2 MiB)/5xx/non-200 (17 statuses) with a JWKS, no or an HTML body/malformed (the catalogue)/junk-only/empty/transport-error answers. " +
 			"Observed = snapshot after every step at quiescence. non-trivial = at least one caller arrived (path != 0); distinct = distinct (input, observed) terms.",
 		Notes: notes,
 		Extra: map[string]any{"reruns_after_disagreeing_observations": reruns, "unstable_scripts": unstable, "quiescence_timeouts": timeouts,
